@@ -63,6 +63,9 @@ func (c *Ctx) Trace(f string, a ...any) {
 	if len(c.trace) < 4000 {
 		c.trace = append(c.trace, fmt.Sprintf(f, a...))
 	}
+	if c.replaying && os.Getenv("VERIF_REPLAY_VERBOSE") != "" {
+		fmt.Printf("TRACE "+f+"\n", a...)
+	}
 }
 
 // Replaying reports whether this is a replay run (harness may print more).
